@@ -261,9 +261,17 @@ class _Awaitable:
         return self._coro.__await__()
 
 
-def _as_awaitable(ctx, coro):
+def _as_awaitable(ctx, coro, path=None):
     kind = ctx.kernel.stream.below(4, "aw-kind")
     if kind == 0:
+        return coro
+    if path is not None and any(
+            k == "generr" and len(path) > len(z)
+            and tuple(path[:len(z)]) == tuple(z)
+            for z, k in ctx.faults.items()):
+        # a row of a lazily produced list that fails afterwards: what is left
+        # in flight is then the library's doing, not a task the resolver
+        # started on its own
         return coro
     if kind == 1:
         ctx.count("awaitable_task")
@@ -304,7 +312,7 @@ def make_default_attr(tname, fname, oid):
                 return _finish(tname, fname, parent, ctx, kwargs, tok)
 
             ctx.count("deferred_from_default_resolver")
-            return _as_awaitable(ctx, inner())
+            return _as_awaitable(ctx, inner(), tok[0])
         if deferred and ctx.mode == "pool":
             ctx.count("deferred_from_default_resolver")
             return info.runtime.submit(
@@ -328,6 +336,17 @@ def make_resolvers(spec, tname, fname):
         v = _finish(tname, fname, root, ctx, kwargs, tok)
         if beh == "gen" and v is not None:
             ctx.count("gen_value")
+            if ctx.faults.get(tok[0]) == "generr":
+                # the lazily produced list fails AFTER its rows have been
+                # handed over (a cursor dying at the end of a result set)
+                ctx.count("F1_lazy_list_fails_mid_iteration")
+
+                def rows(items=list(v), path=tok[0]):
+                    for x in items:
+                        yield x
+                    ctx.log("lx", path, ctx.req_id)
+                    raise ResolverError(error_message(path))
+                return rows()
             return (x for x in v)
         return v
 
@@ -383,12 +402,12 @@ def make_resolvers(spec, tname, fname):
                     # the inner awaitable is handed back un-awaited, in one
                     # of the shapes user code produces (DataLoader-style
                     # futures, ensure_future, objects with __await__)
-                    return _as_awaitable(ctx, inner())
+                    return _as_awaitable(ctx, inner(), tok[0])
 
                 ctx.count("nested_awaitable")
-                return _as_awaitable(ctx, outer())
+                return _as_awaitable(ctx, outer(), tok[0])
             ctx.count("awaitable_value")
-            return _as_awaitable(ctx, inner())
+            return _as_awaitable(ctx, inner(), tok[0])
 
         def pf(root, ctx, info, **kwargs):
             tok = _start(tname, fname, root, ctx, info)
